@@ -346,6 +346,10 @@ def file_chunk(ctx, chunk):
                 return
 
 
+# the cheap legs run once more under the runner's ambient configurations (python -O, other logger levels)
+AMBIENT_LEGS = True
+
+
 def run(ctx):
     quick = ctx.tier == 'quick'
     T, wcs = (5, range(4)) if quick else (7, range(6))
@@ -364,13 +368,15 @@ def run(ctx):
         for wc in (0, 1, 3, 7):
             cases.append({'leg': 'file', 'counts': [per] * (2 * (wc + 1) + 1), 'write_count': wc, 'win': 0})
     size = max(1, len(cases) // (ctx.procs * 4))
+    if ctx.small:
+        cases = cases[::9]
     par.pmap(ctx, file_chunk, [cases[i:i + size] for i in range(0, len(cases), size)], procs=ctx.procs)
     ctx.leg('file', runs=len(cases), timesteps_each=T, crash_points=len(cases) * T)
     ctx.sample(cases[len(cases) // 2])
     if ctx.violations:
         return
     if quick:
-        items = [(cfg, ['a', 'b'], 4) for cfg in QUICK_CONFIGS]
+        items = [(cfg, ['a', 'b'], 3 if ctx.small else 4) for cfg in QUICK_CONFIGS]
         items += [(('absent', False, 0, 'default', True), ['a', 'b'], 4), (('dict', True, 1, 'default', True), ['a', 'b'], 4),
                   (('absent', True, 1, 'default'), ['a', 'b', 'c'], 5)]
     else:
